@@ -471,3 +471,6 @@ UNITS += [enum_unit, cmp_string]
 for _u in UNITS:
     if not _u.replay and _u.name != 'nextPoT':
         _u.replay = replay.battery('C02/driver.cpp', ['battery'])
+
+# planted one-token breaks for the newer units (thorough tier: each must make an obligation fail)
+enum_unit.planted = [('init', r'0, g_alen', '0, g_alen - 1')]
